@@ -72,7 +72,7 @@ class Check:
                 self.known_hits[(clause, k.get("what", ""))] += 1
                 return False
         if replay_obj is not None:
-            d = os.path.join(ROOT, "replays", self.prop)
+            d = os.path.join(os.environ.get("VERIF_EVIDENCE_DIR") or ROOT, "replays", self.prop)
             os.makedirs(d, exist_ok=True)
             n = len([x for x in self.violations if x.get("replay")])
             path = os.path.join(d, f"{clause.replace('.', '_')}-{self.seed}-{n}.json")
@@ -98,8 +98,9 @@ class Check:
               "model_drift": self.drift[:10]}
         if not self.cov["samples"]:
             self.cov["samples"] = ["(no sample recorded)"]
-        os.makedirs(os.path.join(ROOT, "evidence"), exist_ok=True)
-        with open(os.path.join(ROOT, "evidence", f"{self.prop}.json"), "w") as f:
+        evdir = os.environ.get("VERIF_EVIDENCE_DIR") or os.path.join(ROOT, "evidence")
+        os.makedirs(evdir, exist_ok=True)
+        with open(os.path.join(evdir, f"{self.prop}.json"), "w") as f:
             json.dump(ev, f, indent=1, default=str)
         for (c, w), n in self.known_hits.items():
             print(f"KNOWN-FINDING: property={self.prop} {c}: {w} (seen {n}x)")
